@@ -179,14 +179,17 @@ func sendTCP(conn *net.TCPConn, b []byte) ([]byte, error) {
 	}
 
 	sh := make([]byte, 4, 4)
-	_, err = conn.Read(sh)
+	_, err = io.ReadFull(conn, sh)
 	if err != nil {
 		return r, fmt.Errorf("error reading response size header: %v", err)
 	}
 	s := binary.BigEndian.Uint32(sh)
 
-	rb := make([]byte, s, s)
-	_, err = io.ReadFull(conn, rb)
+	// The size is supplied by the peer: read as the bytes arrive rather than allocating it up front.
+	rb, err := io.ReadAll(io.LimitReader(conn, int64(s)))
+	if err == nil && uint32(len(rb)) != s {
+		err = io.ErrUnexpectedEOF
+	}
 	if err != nil {
 		return r, fmt.Errorf("error reading response: %v", err)
 	}
